@@ -141,7 +141,12 @@ func (g *schemaCtx) candidates(s jx.J, depth int) []any {
 	case "object":
 		return g.objects(s, depth)
 	case "":
-		// an untyped position describes nothing: what it "accepts" is left unspecified
+		// an untyped position accepts every JSON value: one candidate of each kind (a Go type that
+		// decodes only some of them is not described by an empty schema)
+		if len(s) == 0 || onlyAnnotations(s) {
+			g.unspecified["untyped-position-probed"]++
+			return []any{num("7"), "abc", true, jx.A{num("1.5")}, jx.J{"red": "two"}}
+		}
 		g.unspecified["untyped-position"]++
 		return nil
 	default:
@@ -484,4 +489,16 @@ func (g *schemaCtx) formatRange(s jx.J, data any, path string, depth int, out *[
 			}
 		}
 	}
+}
+
+// onlyAnnotations: the schema has no validation keyword at all (description, title, x-* only).
+func onlyAnnotations(s jx.J) bool {
+	for k := range s {
+		switch {
+		case k == "description" || k == "title" || k == "example" || k == "readOnly" || k == "default" || strings.HasPrefix(k, "x-"):
+		default:
+			return false
+		}
+	}
+	return true
 }
